@@ -156,7 +156,7 @@ Definition push_attr (st : attrs) (a : attr) : attrs :=
 
 Definition is_branch_like (s : str) : bool := str_eqb (slice_neg s 4 2) (lit "ch").
 Definition is_ring_like (s : str) : bool := str_eqb (slice_neg s 4 2) (lit "ng").
-Definition is_eps_like (s : str) : bool := contains (lit "eps") s.
+Definition is_eps_like (s : str) : bool := str_eqb s (lit "[epsilon]").   (* symbol == "[epsilon]" *)
 
 Section Derive.
 Variable T : table.
@@ -351,20 +351,24 @@ Definition mol_to_smiles (m : dmol) : res (str * list amap) :=
   Ok (join (lit ".") frags, maps).
 
 (* ---------- decoder ---------- *)
-Fixpoint derive_frags (T : table) (compat : bool) (attribute : bool) (frags : list str)
+(* the fragments of selfies.split("."), each tokenised (lazily in Python; the
+   pair (tokens, exception raised at exhaustion) carries the same information) *)
+Definition tokenize_all (s : str) (compat : bool) : list (list str * option exn) :=
+  map (fun f => tokenize_selfies f compat) (split_char c_dot s).
+
+Fixpoint derive_frags (T : table) (attribute : bool) (tfrags : list (list str * option exn))
          (m : dmol) (rings : list ringreq) (aidx : nat) : res (dmol * list ringreq) :=
-  match frags with
+  match tfrags with
   | [] => Ok (m, rings)
-  | s :: rest =>
-    let '(ts, bad) := tokenize_selfies s compat in
+  | (ts, bad) :: rest =>
     do (_, m2, rings2, n) <-
        derive T bad aidx (S (length ts)) (enumerate_from 0 ts) m None 0%Z PNone rings
               (if attribute then Some [] else None) 0;
-    derive_frags T compat attribute rest m2 rings2 (aidx + n)
+    derive_frags T attribute rest m2 rings2 (aidx + n)
   end.
 
 Definition decode_graph (T : table) (s : str) (compat attribute : bool) : res dmol :=
-  do (m, rings) <- derive_frags T compat attribute (split_char c_dot s) empty_mol [] 0;
+  do (m, rings) <- derive_frags T attribute (tokenize_all s compat) empty_mol [] 0;
   form_rings m rings.
 
 Definition decoder (T : table) (s : str) (compat attribute : bool) : res (str * list amap) :=
